@@ -227,13 +227,14 @@ func c08GenFacts() (string, string) {
 	// printed bodies (without comments) of the functions the C08 models were written against
 	ipl := parse("interpolation/interpolation.go")
 	ms := parse("loader/mapstructure.go")
+	yn := parse("utils/yamlnumber.go")
 	bodies := [][2]string{
 		{"c08_body_Interpolate", funcBody(ipl, "", "Interpolate")},
 		{"c08_body_recursiveInterpolate", funcBody(ipl, "", "recursiveInterpolate")},
 		{"c08_body_newPathError", funcBody(ipl, "", "newPathError")},
 		{"c08_body_getCasterForPath", funcBody(ipl, "Options", "getCasterForPath")},
-		{"c08_body_parseYAMLInt", funcBody(ip, "", "parseYAMLInt")},
-		{"c08_body_parseYAMLFloat", funcBody(ip, "", "parseYAMLFloat")},
+		{"c08_body_parseYAMLInt", funcBody(yn, "", "ParseYAMLInt")},
+		{"c08_body_parseYAMLFloat", funcBody(yn, "", "ParseYAMLFloat")},
 		{"c08_body_toInt", funcBody(ip, "", "toInt")},
 		{"c08_body_toInt64", funcBody(ip, "", "toInt64")},
 		{"c08_body_toFloat", funcBody(ip, "", "toFloat")},
@@ -242,7 +243,6 @@ func c08GenFacts() (string, string) {
 		{"c08_body_cast", funcBody(ms, "", "cast")},
 		{"c08_body_DeviceCount_DecodeMapstructure", funcBody(parse("types/device.go"), "DeviceCount", "DecodeMapstructure")},
 		{"c08_body_NanoCPUs_DecodeMapstructure", funcBody(parse("types/cpus.go"), "NanoCPUs", "DecodeMapstructure")},
-		{"c08_body_parseYAMLNumber", funcBody(parse("types/cpus.go"), "", "parseYAMLNumber")},
 		{"c08_body_UnitBytes_DecodeMapstructure", funcBody(parse("types/bytes.go"), "UnitBytes", "DecodeMapstructure")},
 	}
 	b.WriteString("\n")
